@@ -134,8 +134,9 @@ _MESH_TUS = ['src/Mesh/MeshETurbo.cpp', 'src/Mesh/AMesh.cpp', 'src/Mesh/Delaunay
              'src/Basic/Utilities.cpp', 'src/Basic/VectorHelper.cpp']
 for _nd, _tiers in ((2, ('quick', 'thorough')), (3, ('thorough',))):
     K('C08.d.meshturbo.%d' % _nd, property='C08', engine='symex', harness='C08/faults_mesh.cpp', entry='k_meshturbo', tus=_MESH_TUS,
-      defines={'all': {'VF_NDIM': _nd}}, tiers=_tiers,
-      bounds={'quick': 'space dimension %d; nx in [2, 2^10], dx > 0, x0 arbitrary reals, unrotated grid, polarisation flag and storing mode arbitrary, no mask' % _nd},
+      defines={'all': {'VF_NDIM': _nd, 'VF_NXMAX': 1024 if _nd == 2 else 64}}, tiers=_tiers,
+      bounds={'quick': 'space dimension %d; nx in [2, %d] (the number of meshes fits an int), dx > 0, x0 arbitrary reals, unrotated grid, polarisation flag and '
+                       'storing mode arbitrary, no mask' % (_nd, 1024 if _nd == 2 else 64)},
       timeout_ms={'quick': 60000, 'thorough': 300000}, validate={'quick': 20, 'thorough': 40}, validate_doubles='dyadic',
       what='MeshETurbo::_serialize -> MeshETurbo::_deserialize (with initFromGridByMatrix, Grid::resetFromVector, Grid::setRotationByVector, '
            'Rotation::setMatrixDirectVec, Indirection::setMode): records consumed in order and type, both return true, grid geometry, extension, '
@@ -162,7 +163,7 @@ _VARIO_TUS = ['src/Variogram/Vario.cpp', 'src/Variogram/AVario.cpp', 'src/Variog
 _VARIO_STUBS = _TAPE2_STUBS + [
     'ASpaceObject constructors / assignment / destructor / getNDim: the space context is one integer cell (the real code clones a SpaceRN through clone() + dynamic_cast)',
     'ECalcVario::ECalcVario(), AVario::AVario(): the UNDEFINED value is written directly (the static ECalcVario objects are filled by static constructors, which kernels do not run); '
-    'AVario::setCalculByName: stores VARIOGRAM (the reader only ever asks for "vg")',
+    'AVario::setCalculByName: stores VARIOGRAM (the reader only ever asks for "vg"); AVario::setCalcul: stores the value; ECalcVario::fromValue: a harness object carrying the value',
     'messerr, mesArg: empty',
 ]
 for _name, _defs, _tiers, _b in (
@@ -182,3 +183,39 @@ for _name, _defs, _tiers, _b in (
       assumptions=['a neutral file is modelled as the sequence of typed records and line breaks (15 digits, NA token not encoded)',
                    'original built by the real constructors; calculation type set as setCalcul does (value + asymmetry flag); loaded into Vario(VarioParam())'],
       stubs=_VARIO_STUBS)
+
+# ---- C08.e Rule + Node (harness/C08/rule.cpp)
+for _sh, _txt, _tiers in ((0, 'S(F,F)', ('quick', 'thorough')), (1, 'S(F,T(F,F))', ('quick', 'thorough')), (2, 'S(T(F,F),F)', ('quick', 'thorough')),
+                          (3, 'S(T(F,F),T(F,F))', ('thorough',))):
+    K('C08.e.rule.%d' % _sh, property='C08', engine='symex', harness='C08/rule.cpp', entry='k_rule',
+      tus=['src/LithoRule/Rule.cpp', 'src/LithoRule/Node.cpp', 'src/Basic/AStringable.cpp', 'src/Basic/ASerializable.cpp', 'src/Basic/Utilities.cpp'],
+      defines={'all': {'VF_SHAPE': _sh}}, tiers=_tiers, cxxflags=_RAWFLAGS,
+      bounds={'quick': 'tree %s (S: threshold on the first gaussian, T: on the second, F: facies leaf); facies numbers any permutation of 1..nfac, '
+                       'rho an arbitrary real, rule type 0..2' % _txt},
+      timeout_ms={'quick': 60000, 'thorough': 300000}, validate={'quick': 60, 'thorough': 120}, validate_doubles='dyadic',
+      what='Rule::_serialize (with statistics, Node::getStatistics / isValid, the recursive _ruleDefine) -> Rule::_deserialize (with '
+           'setMainNodeFromNodNames(VectorInt), the Node constructor): records consumed in order and type, both return true, rule type, correlation and the '
+           'whole tree (orientation, facies, children of every node) of the reloaded rule agree, re-serialising gives the same records',
+      out='node names (not part of the file format), proportions / thresholds (not part of the file format), RuleShift / RuleShadow parameters, the text layer',
+      assumptions=_TAPE_ASSUME + ['Rule objects are raw storage holding the four fields of the class; nodes built by the real Node(name, orient, facies) constructor'],
+      stubs=_TAPE_STUBS + [
+          'ERule::fromValue: a harness object carrying the value (the library keeps the objects in a std::map filled by static constructors)',
+          'solver build only: std::stringstream default ctor / dtor / str() (empty string), operator<<(ostream&, const string&), ostream::operator<<(int): '
+          'node names composed by the reader are empty; VectorT<String>::operator[] const (the static table of name prefixes): an empty string',
+          'messerr, message: empty'])
+
+# ---- C08.h locator names written by Db::_serialize are decoded to the same role (harness/C09/locid.cpp, entry k_locname)
+K('C08.h.locname', property='C08', engine='symex', harness='C09/locid.cpp', entry='k_locname',
+  tus=['src/Db/PtrGeos.cpp', 'src/Basic/String.cpp', 'src/Enum/Enums.cpp'], defines={'all': {'VF_LEN': 3}},
+  passes='function(sroa,early-cse,simplifycfg),cgscc(inline),function(sroa,early-cse,simplifycfg,adce),globaldce', cxxflags=['-fno-inline'],
+  bounds={'quick': 'every one of the 29 roles; rank 0..8 for the roles that several columns can hold (name = keyword + rank+1), keyword alone for the unique roles'},
+  timeout_ms={'quick': 60000, 'thorough': 300000}, validate={'quick': 9, 'thorough': 9},
+  what='REAL locatorIdentify (with the real std::string code and toLower) on the name getLocatorName writes for (role, rank): the decoded role and rank are the ones written, '
+       'so that a Db reloaded from its neutral file keeps its roles',
+  out='ranks beyond 9; the writer itself (getLocatorName formats through a stringstream: its format is restated in the harness from the documented keyword table)',
+  assumptions=['the name of (role, rank) is the keyword of the role followed by rank+1, or the keyword alone for a unique role (getLocatorName, src/Db/PtrGeos.cpp)'],
+  stubs=['solver build only (the native build runs the library enumeration and libc):',
+         'ELoc::getIterator, ELocIterator::hasNext / operator* / getValue / toNext, ELoc::fromValue: walk a harness table of 30 ELoc objects with the values -1..28 in increasing order',
+         'static object ELoc::UNKNOWN: field _value written by the harness (-1)',
+         'strlen, memcmp: byte loops; tolower: ASCII; strtol / atoi: C-locale model',
+         'std::string::operator=(const char*): characters written through the data pointer, length set', 'messerr: empty'])
